@@ -29,7 +29,9 @@ RULE = ('2-4 WorldHandle subclasses whose transform functions build a world '
         'Chain sub-workload: the world being entered asks, from its '
         'on_switch_in / pending on_add / on_world_load / a held event, to '
         'switch on (1-3 links): the loop must end up processing the last '
-        'target only.')
+        'target only.'
+        ' Rounds 9-13 added: load-time callbacks owed after a cut entry;'
+        ' value-like handles; clear_current judged per request of a chain.')
 ANCHORS = [
     'desper/loop.py::switch',
     'desper/loop.py::Loop.switch',
